@@ -7,7 +7,7 @@
    argument kind) by the fingerprint differential of harness/props/c20.py.  The copy-then-modify
    theorems are about the mechanism transpose / unfold_part_maximal use ("deep copy before
    modification"), for every argument kind. *)
-From PV Require Import Lib.Base Model.C20 Model.C20_Mut Model.C20_Alias Model.C20_Array Proofs.C20 Proofs.C20_Mut Proofs.C20_Alias Proofs.C20_Array.
+From PV Require Import Lib.Base Model.C20 Model.C20_Mut Model.C20_Alias Model.C20_Array Model.C20_Track Model.C20_Beat Proofs.C20 Proofs.C20_Mut Proofs.C20_Alias Proofs.C20_Array Proofs.C20_Track Proofs.C20_Beat.
 From Coq Require Import ZArith List Permutation.
 Import ListNotations.
 
@@ -401,3 +401,165 @@ Theorem slice_ok_meaning : forall (rows : list (list Z)) (start stop : Z) (clip 
   length res = length (filter (active start stop) rows).
 Proof. exact slice_ok_meaning_lemma. Qed.
 Print Assumptions slice_ok_meaning.
+
+(* ---------------------------------------------------------------------------------------------- *)
+(* Exporter that must only read, the glue around it (Model/C20_Track.v): the argument dispatch of
+   save_performance_midi (Performance | PerformedPart | list / tuple of PerformedParts | anything else) and the
+   track renumbering of the Performance constructor (sanitize_track_numbers), which a "normalising" dispatch
+   would run on the caller's parts. *)
+
+(* THE ARGUMENT IS LEFT AS IT WAS, for every argument of every kind (also the ones that raise): the export loop
+   walks exactly the argument's own parts (no constructor in between), ValueError exactly for a non-iterable /
+   an iterable with a foreign element *)
+Theorem save_perf_midi_preserves_argument : forall a : pm_arg,
+  snd (save_perf_midi Direct a) = a /\
+  match dispatch Direct a with
+  | Some (pps, a') => a' = a /\ pps = arg_parts a
+  | None => fst (save_perf_midi Direct a) = OValueError
+  end.
+Proof. exact direct_preserves_lemma. Qed.
+Print Assumptions save_perf_midi_preserves_argument.
+
+(* calling it again on the same argument gives the identical outcome and leaves the argument alone again *)
+Theorem save_perf_midi_repeatable : forall a : pm_arg,
+  save_perf_midi Direct (snd (save_perf_midi Direct a)) = save_perf_midi Direct a.
+Proof. exact direct_repeatable_lemma. Qed.
+Print Assumptions save_perf_midi_repeatable.
+
+(* the seeded slip (performed_parts = Performance(list(arg)).performedparts) leaves a list argument alone EXACTLY
+   when the constructor's renumbering is the identity on it ... *)
+Theorem through_performance_safe_iff : forall pps : list ppart,
+  snd (save_perf_midi ThroughPerformance (AIterable (map Some pps))) = AIterable (map Some pps) <-> sanitize pps = pps.
+Proof. exact through_safe_iff_lemma. Qed.
+Print Assumptions through_performance_safe_iff.
+
+(* ... and is refuted by two parts that both use track 0 (finite witness): the argument is rewritten, the file has
+   other tracks than the one the code writes, while the code leaves the same argument alone; a second call of the
+   slip no longer changes anything (which is why it needs a list that was never in a Performance) *)
+Theorem through_performance_refuted :
+  exists es : list (option ppart),
+    snd (save_perf_midi ThroughPerformance (AIterable es)) <> AIterable es /\
+    fst (save_perf_midi ThroughPerformance (AIterable es)) <> fst (save_perf_midi Direct (AIterable es)) /\
+    snd (save_perf_midi Direct (AIterable es)) = AIterable es /\
+    save_perf_midi ThroughPerformance (snd (save_perf_midi ThroughPerformance (AIterable es)))
+    = save_perf_midi ThroughPerformance (AIterable es).
+Proof. exact through_refuted_lemma. Qed.
+Print Assumptions through_performance_refuted.
+
+(* Performance(pps): the list keeps its length and every part its numbers of notes, controls and programs *)
+Theorem sanitize_shape : forall pps : list ppart,
+  length (sanitize pps) = length pps /\
+  forall i pp', nth_error (sanitize pps) i = Some pp' ->
+    exists pp, nth_error pps i = Some pp /\ length (p_notes pp') = length (p_notes pp) /\
+               length (p_ctrls pp') = length (p_ctrls pp) /\ length (p_progs pp') = length (p_progs pp).
+Proof. exact sanitize_shape_lemma. Qed.
+Print Assumptions sanitize_shape.
+
+(* afterwards every note, control and program HAS a track entry (also those that had none), in 0..num_tracks-1;
+   the lookup track_map[...] never fails *)
+Theorem sanitize_tracks_in_range : forall (pps : list ppart) i pp' o,
+  nth_error (sanitize pps) i = Some pp' -> In o (events pp') ->
+  exists z, o = Some z /\ (0 <= z < Z.of_nat (num_tracks pps))%Z.
+Proof. exact sanitize_range_lemma. Qed.
+Print Assumptions sanitize_tracks_in_range.
+
+(* what the renumbering is for: afterwards no track number occurs in two different parts ... *)
+Theorem sanitize_unique_tracks : forall (pps : list ppart) i j ppi ppj z,
+  nth_error (sanitize pps) i = Some ppi -> nth_error (sanitize pps) j = Some ppj ->
+  In (Some z) (events ppi) -> In (Some z) (events ppj) -> i = j.
+Proof. exact sanitize_unique_lemma. Qed.
+Print Assumptions sanitize_unique_tracks.
+
+(* ... and inside one part two events share their new number exactly when they shared their old track (a missing
+   key counting as -1) *)
+Theorem sanitize_same_track : forall (pps : list ppart) i pp t1 t2,
+  nth_error pps i = Some pp -> In t1 (events pp) -> In t2 (events pp) ->
+  (index_of (i, get_track (-1) t1) (unique_track_ids pps) = index_of (i, get_track (-1) t2) (unique_track_ids pps)
+   <-> get_track (-1) t1 = get_track (-1) t2).
+Proof. exact sanitize_same_track_lemma. Qed.
+Print Assumptions sanitize_same_track.
+
+(* the checker run on real calls accepts only observations in which the argument's parts are as before and the
+   outcome (exception / note_on messages per MIDI track) is the model's *)
+Theorem track_ok_meaning : forall (a : pm_arg) (out : pm_out) (after : list ppart),
+  track_ok (a, out, after) = true -> after = arg_parts a /\ out_eqb (fst (save_perf_midi Direct a)) out = true.
+Proof. exact track_ok_meaning_lemma. Qed.
+Print Assumptions track_ok_meaning.
+
+(* the renumbering is idempotent: Performance(parts of a Performance) changes nothing (unbounded; proved through
+   "the renumbering is strictly monotone on the pairs in use", so the sorted set of the new pairs is the image of the old) *)
+Theorem sanitize_idempotent : forall pps : list ppart, sanitize (sanitize pps) = sanitize pps.
+Proof. exact sanitize_idempotent_lemma. Qed.
+Print Assumptions sanitize_idempotent.
+
+(* EXACTLY which part lists the constructor leaves alone (and hence, with through_performance_safe_iff, exactly the
+   list arguments on which the seeded slip is invisible): all events have a track entry and every (part, track) pair in
+   use is numbered by its rank *)
+Theorem sanitize_fixpoint_iff : forall pps : list ppart, sanitize pps = pps <-> canonical pps.
+Proof. exact sanitize_fixpoint_iff_lemma. Qed.
+Print Assumptions sanitize_fixpoint_iff.
+
+(* so the slip is invisible on every list that has been through the constructor before *)
+Theorem through_performance_after_sanitize : forall pps : list ppart,
+  snd (save_perf_midi ThroughPerformance (AIterable (map Some (sanitize pps)))) = AIterable (map Some (sanitize pps)).
+Proof. exact through_after_sanitize_lemma. Qed.
+Print Assumptions through_performance_after_sanitize.
+
+(* ---------------------------------------------------------------------------------------------- *)
+(* Beat mode of a Part (Model/C20_Beat.v): the documented in-place operations use_musical_beat / use_notated_beat /
+   set_musical_beat_per_ts and an exporter that must only read, in ANY history. *)
+
+(* wherever exports occur in a history of mode switches they do not matter: the state at the end is the state the
+   in-place operations alone produce *)
+Theorem export_transparent_in_any_history : forall (h : list bop) (st : bstate),
+  bfinal ReadOnly st h = bfinal ReadOnly st (filter (fun o => negb (is_export o)) h).
+Proof. exact export_transparent_lemma. Qed.
+Print Assumptions export_transparent_in_any_history.
+
+(* the state observed right after an export anywhere in a history is the state right before it; and any number of
+   exports in a row leave the part as it was *)
+Theorem export_leaves_beat_state : forall (h1 h2 : list bop) (st : bstate),
+  nth_error (brun ReadOnly st (h1 ++ BExport :: h2)) (length h1) = Some (bfinal ReadOnly st h1).
+Proof. exact brun_export_step_lemma. Qed.
+Print Assumptions export_leaves_beat_state.
+
+Theorem repeated_exports_leave_beat_state : forall (h : list bop) (st : bstate),
+  forallb is_export h = true -> bfinal ReadOnly st h = st /\ brun ReadOnly st h = repeat st (length h).
+Proof. exact export_only_lemma. Qed.
+Print Assumptions repeated_exports_leave_beat_state.
+
+(* "switch to notated beats and back" (the seeded slip j) restores the state EXACTLY when the part uses notated beats
+   or every time signature carries its default number of musical beats -- why default tables never showed it ... *)
+Theorem toggle_and_back_identity_iff : forall st : bstate,
+  export_effect ToggleAndBack st = st <-> (fst st = false \/ all_default (snd st)).
+Proof. exact toggle_identity_iff_lemma. Qed.
+Print Assumptions toggle_and_back_identity_iff.
+
+(* ... and is refuted after use_musical_beat({"6/8": 3, "4/4": 8}) on a fresh part (finite witness) *)
+Theorem toggle_and_back_refuted :
+  exists (st : bstate) (h : list bop),
+    fst st = false /\ all_default (snd st) /\
+    bfinal ToggleAndBack st h <> bfinal ReadOnly st h /\
+    bfinal ReadOnly st h = (true, [mk_ts 6 8 3; mk_ts 4 4 8]) /\
+    bfinal ToggleAndBack st h = (true, [mk_ts 6 8 2; mk_ts 4 4 4]).
+Proof. exact toggle_refuted_lemma. Qed.
+Print Assumptions toggle_and_back_refuted.
+
+(* what the in-place operations do: each is idempotent (the second call only warns); use_notated_beat resets every
+   time signature to its default; use_musical_beat(t) applies t only when t is not {}; beats are never touched *)
+Theorem mode_switch_laws : forall (st : bstate) (t1 t2 : mbtable),
+  use_notated (use_notated st) = use_notated st /\
+  use_musical t2 (use_musical t1 st) = use_musical t1 st /\
+  (fst st = true -> fst (use_notated st) = false /\ all_default (snd (use_notated st))) /\
+  (fst st = false -> fst (use_musical t1 st) = true /\
+                     snd (use_musical t1 st) = match t1 with [] => snd st | _ => set_mb t1 (snd st) end) /\
+  map ts_beats (snd (use_notated st)) = map ts_beats (snd st) /\
+  map ts_beats (snd (use_musical t1 st)) = map ts_beats (snd st).
+Proof. exact mode_switch_laws_lemma. Qed.
+Print Assumptions mode_switch_laws.
+
+(* the checker run on real Parts accepts only the states the model computes after every operation *)
+Theorem beat_ok_meaning : forall (st : bstate) (h : list bop) (obs : list bstate),
+  beat_ok (st, h, obs) = true -> obs = brun ReadOnly st h.
+Proof. exact beat_ok_meaning_lemma. Qed.
+Print Assumptions beat_ok_meaning.
